@@ -993,6 +993,10 @@ pub fn run(ctx: &Ctx) -> i32 {
     if matches!(ctx.prop.as_str(), "C03" | "C01" | "C02") {
         cas_versions(ctx, &sh);
     }
+    // ---- present keys stay present while whole-store operations hold the map's locks for long
+    if matches!(ctx.prop.as_str(), "C06" | "C04" | "C08") && !miri {
+        long_holder_phase(ctx, &sh);
+    }
     let ev = sh.ev.into_inner().unwrap();
     ev.finish()
 }
@@ -1289,6 +1293,89 @@ fn cas_versions(ctx: &Ctx, sh: &Shared) {
         for (v, d) in found.lock().unwrap().drain(..) {
             e.violation(v, d);
         }
+    }
+}
+
+/// A store crowded with a few hundred thousand items, one connection issuing delayed flushes with a far-future
+/// deadline (each walks the whole map under its shard locks and, the clock being frozen, removes nothing), and
+/// other connections working on a handful of *present* keys: add must answer Key exists, replace / append /
+/// prepend (with the same content / empty data) must succeed, get must hit with the original bytes. A look-up that
+/// gives up or misses while the shard is held shows as add overwriting a present item or replace/append/get
+/// reporting Not found.
+fn long_holder_phase(ctx: &Ctx, sh: &Shared) {
+    use memcrs::cache::cache::Record;
+    let crowd = ctx.n(150_000, 400_000) as usize;
+    let cap = Duration::from_secs(if ctx.thorough() { 20 } else { 4 });
+    let timer = VirtualTimer::new(100);
+    let inner = Arc::new(MemoryStore::new(timer.clone()));
+    let top: Arc<dyn Cache + Send + Sync> = inner.clone();
+    let stack = Stack::with_top(timer.clone(), inner, None, top);
+    for i in 0..crowd {
+        let _ = stack.memc.set(bytes::Bytes::from(format!("crowd-{}", i)), Record::new(bytes::Bytes::from_static(b"c"), 0, 0, 0));
+    }
+    let guarded: Vec<Vec<u8>> = (0..8).map(|i| format!("guarded-{}", i).into_bytes()).collect();
+    {
+        let mut conn = Conn::new(stack.memc.clone(), 1 << 20);
+        for g in &guarded {
+            let _ = conn.feed(&wire::store(op::SET, g, b"original", 0xab, 0, 1, 0).encode());
+        }
+    }
+    let stop = Arc::new(AtomicBool::new(false));
+    let flushes = Arc::new(AtomicU64::new(0));
+    let flusher = {
+        let (memc, stop, flushes) = (stack.memc.clone(), stop.clone(), flushes.clone());
+        std::thread::spawn(move || {
+            let mut conn = Conn::new(memc, 1 << 20);
+            while !stop.load(Ordering::Relaxed) {
+                let _ = conn.feed(&wire::flush(op::FLUSH, Some(1_000_000), 7).encode());
+                flushes.fetch_add(1, Ordering::Relaxed);
+            }
+        })
+    };
+    let t0 = Instant::now();
+    let found: Arc<Mutex<Vec<String>>> = Arc::new(Mutex::new(vec![]));
+    let ops = Arc::new(AtomicU64::new(0));
+    let mut hs = vec![];
+    for c in 0..4usize {
+        let (memc, guarded, found, ops) = (stack.memc.clone(), guarded.clone(), found.clone(), ops.clone());
+        hs.push(std::thread::spawn(move || {
+            let mut conn = Conn::new(memc, 1 << 20);
+            let mut i = 0u32;
+            while t0.elapsed() < cap && found.lock().unwrap().is_empty() {
+                let g = &guarded[(i as usize * 3 + c) % guarded.len()];
+                let (f, what, want): (wire::Frame, &str, u16) = match (i + c as u32) % 5 {
+                    0 => (wire::store(op::ADD, g, b"intruder", 0x11, 0, i, 0), "add on a present key", st::EXISTS),
+                    1 => (wire::store(op::REPLACE, g, b"original", 0xab, 0, i, 0), "replace of a present key", st::OK),
+                    2 => (wire::concat(op::APPEND, g, b"", i, 0), "append (empty data) to a present key", st::OK),
+                    3 => (wire::concat(op::PREPEND, g, b"", i, 0), "prepend (empty data) to a present key", st::OK),
+                    _ => (wire::get(op::GET, g, i), "get of a present key", st::OK),
+                };
+                let o = conn.feed(&f.encode());
+                let r = wire::parse_all(&o.bytes).ok().and_then(|mut v| v.pop());
+                let ok = match &r {
+                    Some(r) => r.status == want && (f.opcode != op::GET || (r.value == b"original" && r.flags() == Some(0xab))),
+                    None => false,
+                };
+                if !ok {
+                    found.lock().unwrap().push(format!("{} answered {:?} (expected status {:#x}) while another connection was running delayed flushes over {} items", what, r.map(|r| r.brief()), want, crowd));
+                }
+                ops.fetch_add(1, Ordering::Relaxed);
+                i = i.wrapping_add(1);
+            }
+        }));
+    }
+    for h in hs {
+        let _ = h.join();
+    }
+    stop.store(true, Ordering::Relaxed);
+    let _ = flusher.join();
+    let mut e = sh.ev.lock().unwrap();
+    e.evaluations += 1;
+    e.count("long_holder:commands_on_present_keys", ops.load(Ordering::Relaxed));
+    e.count("long_holder:delayed_flushes_over_the_crowded_store", flushes.load(Ordering::Relaxed));
+    e.count("long_holder:items_in_store", crowd as u64);
+    for m in found.lock().unwrap().iter().take(3) {
+        e.violation(Viol::new(&["C06", "C04", "C08", "C01"], "present-key-not-seen", m.clone()), json!({"engine":"lin-long-holder","crowd":crowd,"detail":m}));
     }
 }
 
